@@ -384,4 +384,237 @@ example : commonPointPair i16 i64 ⟨⟨1, 1⟩, 273150, ⟨1, 1000⟩⟩ ⟨⟨
     (spaceshipPoints i16 i64 ⟨⟨1, 1⟩, 273150, ⟨1, 1000⟩⟩ ⟨⟨5, 9⟩, 459670, ⟨1, 1800⟩⟩ 21 68).val = .ok .gt := by
   decide
 
+/-! ## Non-truncating conversions through the public API -/
+
+/-- **C09, `p.in(u')` / `p.as(u')` (implicit rep).**  When the target unit divides the source unit and (unless the two
+origins are equal) the unit of the origin displacement, a clean conversion is the exact affine map — no truncation:
+`x · u' + origin(u') = v · u + origin(u)`. -/
+theorem C09_in_exact (r : IntTy) (hr : r ∈ IntTy.all) (u u' : PtUnit) (hu : u.Pos) (hu' : u'.Pos)
+    (ho : originRep.inRange u.oc) (ho' : originRep.inRange u'.oc)
+    (hds : Divides u'.scale u.scale)
+    (hdd : (originsEqual u' u).val ≠ .ok true → Divides u'.scale (dispUnit u' u))
+    (v x : Int) (h : inImplicit r u u' v = ⟨.ok x, false, false⟩) :
+    (x : Rat) * u'.scale.scale + originOf u' = position u v :=
+  inImplicit_exact r hr u u' hu hu' ho ho' hds hdd v x h
+
+/-- Non-vacuity: 20 [1, 273150·(1/1000)] (int32) `.in` the unit [1/9000, origin 0]: 2638350 (= 293.15 · 9000). -/
+example : inImplicit i32 ⟨⟨1, 1⟩, 273150, ⟨1, 1000⟩⟩ ⟨⟨1, 9000⟩, 0, ⟨1, 1000⟩⟩ 20 = ⟨.ok 2638350, false, false⟩ := by decide
+
+theorem asRepFrac_int_inv (p n : IntTy) (hc : IntTy.common p n ∈ IntTy.all) (N : Nat) (y z : Int)
+    (h : asRepFrac p n N 1 y = ⟨.ok z, false, false⟩) : z = y * N := by
+  unfold asRepFrac at h
+  simp only [] at h
+  obtain ⟨x, h1, h⟩ := andThen_inv _ _ _ h
+  obtain ⟨w, h2, h3⟩ := andThen_inv _ _ _ h
+  have e1 := staticCast_inv _ _ _ h1
+  have e2 := applyMag_int_inv _ hc N x w h2
+  have e3 := staticCast_inv _ _ _ h3
+  rw [e3, e2, e1]
+
+/-- **C09, `p.in<NewRep>(u')` / `as<NewRep>` / `coerce_in` (explicit rep), non-truncating case.**  Same divisibility
+hypotheses: a clean explicit conversion is the exact affine map.  (The general, truncating case is
+`C09_convert_exact_same_origin` / `C09_convert_exact_displaced`.) -/
+theorem C09_in_explicit_exact (r n : IntTy) (hr : r ∈ IntTy.all) (hn : n ∈ IntTy.all) (u u' : PtUnit) (hu : u.Pos) (hu' : u'.Pos)
+    (ho : originRep.inRange u.oc) (ho' : originRep.inRange u'.oc)
+    (hds : Divides u'.scale u.scale)
+    (hdd : (originsEqual u u').val ≠ .ok true → Divides u'.scale (dispUnit u u'))
+    (v x : Int) (h : inExplicit r n u u' v = ⟨.ok x, false, false⟩) :
+    (x : Rat) * u'.scale.scale + originOf u' = position u v := by
+  obtain ⟨hcr, hcrp, hrc, hc2, _, _, _⟩ := types_closed r hr n hn
+  have hoc2 : IntTy.common originRep (intermediateRep r n) ∈ IntTy.all := (all_closed r hr n hn).2.2.2.2.1
+  unfold inExplicit at h
+  simp only [] at h
+  obtain ⟨a, ha, h⟩ := andThen_inv _ _ _ h
+  have ea := repCast_inv r _ hrc v a ha
+  cases heq : (originsEqual u u').val with
+  | ub w => rw [heq] at h; simp [ubRes] at h
+  | ok b =>
+    rw [heq] at h
+    cases b with
+    | true =>
+      simp only [] at h
+      obtain ⟨y, hy, h⟩ := andThen_inv _ _ _ h
+      have ey := liftStep_sub_inv _ hcrp a 0 y hy
+      rcases hrat : ratio u.scale u'.scale with ⟨N, D⟩
+      rw [hrat] at h
+      simp only [] at h
+      have hD : D = 1 := by
+        have := ratio_of_dvd u'.scale u.scale hu'.1 hu.1 hds
+        rw [hrat] at this; exact this
+      rw [hD] at h
+      have ex := asRepFrac_int_inv _ n hc2 N y x h
+      obtain ⟨hspec, _, _⟩ := ratio_spec u.scale u'.scale hu.1 hu'.1
+      rw [hrat] at hspec
+      simp only [hD] at hspec
+      have horig := originsEqual_true u u' hu hu' ho ho' heq
+      unfold position
+      rw [horig, ex, ey, ea, Rat.intCast_mul, Rat.intCast_natCast, Rat.intCast_sub]
+      grind
+    | false =>
+      simp only [] at h
+      cases hdv : (dispValue u u').val with
+      | ub w => rw [hdv] at h; simp [ubRes] at h
+      | ok dv =>
+        rw [hdv] at h
+        simp only [] at h
+        obtain ⟨d, hd, h⟩ := andThen_inv _ _ _ h
+        obtain ⟨y, hy, h⟩ := andThen_inv _ _ _ h
+        have ed := repCast_inv _ _ hoc2 dv d hd
+        have ey := sub_same_inv _ hcr _ _ a d y (liftRes_inv _ _ hy)
+        have hud : (dispUnit u u').Pos := common_pos' _ _ hu'.2 hu.2
+        have hCU : (URat.common u.scale (dispUnit u u')).Pos := common_pos' _ _ hu.1 hud
+        rcases hrat : ratio (URat.common u.scale (dispUnit u u')) u'.scale with ⟨N, D⟩
+        rw [hrat] at h
+        simp only [] at h
+        have hdiv : Divides u'.scale (URat.common u.scale (dispUnit u u')) :=
+          dvd_common _ _ _ hds (hdd (by rw [heq]; simp))
+        have hD : D = 1 := by
+          have := ratio_of_dvd u'.scale _ hu'.1 hCU hdiv
+          rw [hrat] at this; exact this
+        rw [hD] at h
+        have ex := asRepFrac_int_inv _ n hc2 N y x h
+        obtain ⟨hspec, _, _⟩ := ratio_spec (URat.common u.scale (dispUnit u u')) u'.scale hCU hu'.1
+        rw [hrat] at hspec
+        simp only [hD] at hspec
+        have e1 := URat.scale_eq_ratioL u.scale (dispUnit u u') hu.1 hud
+        have e2 := URat.scale_eq_ratioR u.scale (dispUnit u u') hu.1 hud
+        have hdisp := dispValue_exact u u' hu hu' ho ho' dv hdv
+        unfold position
+        rw [ex, ey, ed, ea, Rat.intCast_mul, Rat.intCast_natCast, Rat.intCast_sub, Rat.intCast_mul, Rat.intCast_mul,
+          Rat.intCast_natCast, Rat.intCast_natCast]
+        grind
+
+/-- Non-vacuity: 20 [1, 273150·(1/1000)] int16 → int64 in the unit [1/9000, origin 0]. -/
+example : inExplicit i16 i64 ⟨⟨1, 1⟩, 273150, ⟨1, 1000⟩⟩ ⟨⟨1, 9000⟩, 0, ⟨1, 1000⟩⟩ 20 = ⟨.ok 2638350, false, false⟩ := by decide
+
+/-! ## Point ± quantity -/
+
+theorem originsEqual_same (a b : PtUnit) (ha : a.Pos) (hoc : b.oc = a.oc) (hou : b.ou = a.ou) (ho : originRep.inRange a.oc) :
+    (originsEqual a b).val = .ok true := by
+  obtain ⟨k1, k2⟩ := ratioL_self a.ou ha.2
+  unfold originsEqual
+  rw [hoc, hou, k1, k2]
+  have hcc : IntTy.common originRep originRep = originRep := by decide
+  have hf : FitsCommon originRep originRep 1 1 a.oc a.oc := by
+    unfold FitsCommon; rw [hcc]; simp; exact ho
+  rw [cmp_ok .eq originRep originRep (by decide) (by decide) rfl 1 1 a.oc a.oc ho ho hf]
+  simp [CmpOp.eval]
+
+/-- The unit of `p ± q` has the point unit's origin and the common (gcd) scale of the two units. -/
+theorem shiftResultUnit_spec (uP : PtUnit) (hP : uP.Pos) (sq : URat) (ho : originRep.inRange uP.oc) :
+    (shiftResultUnit uP sq).scale = gcdScale uP.scale sq ∧ (shiftResultUnit uP sq).oc = uP.oc ∧ (shiftResultUnit uP sq).ou = uP.ou := by
+  have hco : (commonOriginUnit uP (borrowOrigin uP sq)).oc = uP.oc ∧ (commonOriginUnit uP (borrowOrigin uP sq)).ou = uP.ou := by
+    rcases commonOriginUnit_cases uP (borrowOrigin uP sq) with h | h <;> rw [h] <;> exact ⟨rfl, rfl⟩
+  have hcoP : (commonOriginUnit uP (borrowOrigin uP sq)).Pos ∨ True := Or.inr trivial
+  have e1 : (originsEqual (commonOriginUnit uP (borrowOrigin uP sq)) uP).val = .ok true := by
+    have h' : (originsEqual uP (commonOriginUnit uP (borrowOrigin uP sq))).val = .ok true :=
+      originsEqual_same uP _ hP hco.1 hco.2 ho
+    unfold originsEqual at h' ⊢
+    rw [hco.1, hco.2] at h' ⊢
+    exact h'
+  have e2 : (originsEqual (commonOriginUnit uP (borrowOrigin uP sq)) (borrowOrigin uP sq)).val = .ok true := by
+    have : (originsEqual (commonOriginUnit uP (borrowOrigin uP sq)) (borrowOrigin uP sq)).val =
+        (originsEqual (commonOriginUnit uP (borrowOrigin uP sq)) uP).val := rfl
+    rw [this]; exact e1
+  refine ⟨?_, hco.1, hco.2⟩
+  unfold shiftResultUnit
+  rw [cpu_scale]
+  unfold cpuStep
+  rw [e1]
+  simp only []
+  rw [e2]
+  rfl
+
+/-- Signed contribution of the quantity in each of the three operators. -/
+def Point.ShiftOp.sign : ShiftOp → Int
+  | .pPlusQ => 1 | .qPlusP => 1 | .pMinusQ => -1
+
+/-- **C09, point ± quantity.**  For `p + q`, `q + p` and `p − q` (integral reps, point unit with an `int` origin,
+quantity of scale `sq`): whenever the result is clean (no undefined behaviour, wrap-around or narrowing), it is the
+point shifted by exactly the quantity:
+`z · unit(result) + origin(result) = position(p) ± vq · sq`, where the result unit has the point unit's origin and the
+common (gcd) scale of the point's and the quantity's unit (`shiftResultUnit_spec`). -/
+theorem C09_point_shift_exact (op : ShiftOp) (rp rq : IntTy) (hp : rp ∈ IntTy.all) (hq : rq ∈ IntTy.all)
+    (uP : PtUnit) (hP : uP.Pos) (ho : originRep.inRange uP.oc) (sq : URat) (hsq : sq.Pos) (vp vq z : Int)
+    (h : pointShift op rp rq uP sq vp vq = ⟨.ok z, false, false⟩) :
+    (z : Rat) * (shiftResultUnit uP sq).scale.scale + originOf (shiftResultUnit uP sq) =
+      position uP vp + (op.sign : Rat) * ((vq : Rat) * sq.scale) ∧
+    originOf (shiftResultUnit uP sq) = originOf uP := by
+  have hR : IntTy.common rp rq ∈ IntTy.all := by
+    have : ∀ a ∈ IntTy.all, ∀ b ∈ IntTy.all, IntTy.common a b ∈ IntTy.all := by decide
+    exact this rp hp rq hq
+  have hty : ∀ a ∈ IntTy.all, ∀ b ∈ IntTy.all, (IntTy.common a a ∈ IntTy.all ∧ IntTy.common b (IntTy.common a b) ∈ IntTy.all ∧
+      (IntTy.common a b).promote ∈ IntTy.all ∧ IntTy.common (IntTy.common a b).promote (IntTy.common a b) ∈ IntTy.all ∧
+      IntTy.common (IntTy.common a b) (IntTy.common a b) ∈ IntTy.all) := by decide
+  obtain ⟨hqq, hqR, hRp, hRpR, hRR⟩ := hty rq hq rp hp
+  have hqR' : IntTy.common rq (IntTy.common rp rq) ∈ IntTy.all := (hty rp hp rq hq).2.1
+  have hRp' := (hty rp hp rq hq).2.2.1
+  have hRpR' := (hty rp hp rq hq).2.2.2.1
+  have hRR' := (hty rp hp rq hq).2.2.2.2
+  have hQ' : (borrowOrigin uP sq).Pos := ⟨hsq, hP.2⟩
+  obtain ⟨hcuP, hcuR, d1, d2, dd1, _⟩ := cpu_facts uP (borrowOrigin uP sq) hP hQ' ho ho
+  have horg : originOf (shiftResultUnit uP sq) = originOf uP := by
+    obtain ⟨_, e1, e2⟩ := shiftResultUnit_spec uP hP sq ho
+    unfold originOf; rw [e1, e2]
+  refine ⟨?_, horg⟩
+  unfold pointShift at h
+  simp only [] at h
+  obtain ⟨x, hx, h⟩ := andThen_inv _ _ _ h
+  obtain ⟨d, hd, h⟩ := andThen_inv _ _ _ h
+  obtain ⟨s, hs, h⟩ := andThen_inv _ _ _ h
+  have ez := repCast_inv _ _ hRpR' s z h
+  -- the point operand
+  obtain ⟨x0, hx0, hx1⟩ := andThen_inv _ _ _ hx
+  have e0 := repCastPoint_inv rp _ hp hR uP hP ho vp x0 hx0
+  rw [e0] at hx1
+  have hpos := inImplicit_exact _ hR uP (shiftResultUnit uP sq) hP hcuP ho hcuR d1 dd1 vp x hx1
+  -- the quantity operand
+  obtain ⟨a, ha, hd⟩ := andThen_inv _ _ _ hd
+  obtain ⟨b, hb, hd⟩ := andThen_inv _ _ _ hd
+  have ea := asRep_inv rq rq (by have := (hty rq hq rq hq).1; exact this) 1 vq a ha
+  have eb := repCast_inv rq _ hqR' a b hb
+  have ed := asRep_inv _ _ hRR' _ b d hd
+  have hd2 : Divides (shiftResultUnit uP sq).scale sq := d2
+  have hD := ratio_of_dvd (shiftResultUnit uP sq).scale sq hcuP.1 hsq hd2
+  obtain ⟨hspec, _, _⟩ := ratio_spec sq (shiftResultUnit uP sq).scale hsq hcuP.1
+  rw [hD] at hspec
+  -- the operator
+  have es : s = x + op.sign * d := by
+    cases op with
+    | pPlusQ => have := liftStep_add_inv _ hRp' x d s hs; simp [ShiftOp.sign]; exact this
+    | qPlusP => have := liftStep_add_inv _ hRp' d x s hs; simp [ShiftOp.sign]; omega
+    | pMinusQ => have := liftStep_sub_inv _ hRp' x d s hs; simp [ShiftOp.sign]; omega
+  rw [ez, es, ed, eb, ea, ← hpos, Rat.intCast_add, Rat.intCast_mul, Rat.intCast_mul, Rat.intCast_mul, Rat.intCast_natCast]
+  simp only [Int.cast_ofNat_Int, Rat.intCast_natCast] at hspec ⊢
+  grind
+
+/-- **C09, `p + q` and `q + p`.** -/
+theorem C09_point_plus_quantity (rp rq : IntTy) (hp : rp ∈ IntTy.all) (hq : rq ∈ IntTy.all)
+    (uP : PtUnit) (hP : uP.Pos) (ho : originRep.inRange uP.oc) (sq : URat) (hsq : sq.Pos) (vp vq z : Int)
+    (h : pointShift .pPlusQ rp rq uP sq vp vq = ⟨.ok z, false, false⟩ ∨ pointShift .qPlusP rp rq uP sq vp vq = ⟨.ok z, false, false⟩) :
+    (z : Rat) * (shiftResultUnit uP sq).scale.scale + originOf (shiftResultUnit uP sq) = position uP vp + (vq : Rat) * sq.scale := by
+  rcases h with h | h
+  · have := (C09_point_shift_exact .pPlusQ rp rq hp hq uP hP ho sq hsq vp vq z h).1
+    simp only [ShiftOp.sign] at this
+    rw [this]; grind
+  · have := (C09_point_shift_exact .qPlusP rp rq hp hq uP hP ho sq hsq vp vq z h).1
+    simp only [ShiftOp.sign] at this
+    rw [this]; grind
+
+/-- **C09, `p − q`.** -/
+theorem C09_point_minus_quantity (rp rq : IntTy) (hp : rp ∈ IntTy.all) (hq : rq ∈ IntTy.all)
+    (uP : PtUnit) (hP : uP.Pos) (ho : originRep.inRange uP.oc) (sq : URat) (hsq : sq.Pos) (vp vq z : Int)
+    (h : pointShift .pMinusQ rp rq uP sq vp vq = ⟨.ok z, false, false⟩) :
+    (z : Rat) * (shiftResultUnit uP sq).scale.scale + originOf (shiftResultUnit uP sq) = position uP vp - (vq : Rat) * sq.scale := by
+  have := (C09_point_shift_exact .pMinusQ rp rq hp hq uP hP ho sq hsq vp vq z h).1
+  simp only [ShiftOp.sign] at this
+  rw [this]; grind
+
+/-- Non-vacuity: 20 [1, 273150·(1/1000)] (int32) + 5 [1] = 25; 20 °C-like − 9 [5/9] (int64) = 135 ninths;
+6 [1] (uint32) + 22594556 [1/1000, origin 0] (uint32) = 22600556 thousandths. -/
+example : pointShift .pPlusQ i32 i32 ⟨⟨1, 1⟩, 273150, ⟨1, 1000⟩⟩ ⟨1, 1⟩ 20 5 = ⟨.ok 25, false, false⟩ ∧
+    pointShift .pMinusQ i32 i64 ⟨⟨1, 1⟩, 273150, ⟨1, 1000⟩⟩ ⟨5, 9⟩ 20 9 = ⟨.ok 135, false, false⟩ ∧
+    pointShift .qPlusP u32 u32 ⟨⟨1, 1000⟩, 0, ⟨1, 1000⟩⟩ ⟨1, 1⟩ 22594556 6 = ⟨.ok 22600556, false, false⟩ := by
+  decide
+
 end Au
